@@ -89,7 +89,7 @@ def dump_time(t):
     t = float(t)
     if math.isinf(t) and t > 0:
         return S('inf')
-    f = Fraction(t)
+    f = Fraction(repr(t))      # decimal value of the shortest round-trip representation
     return [S('q'), f.numerator, f.denominator]
 
 
